@@ -171,6 +171,18 @@ CLAIMS: dict[str, dict[str, str]] = {
         "note": NOTE,
         "technique": "reference-shape matching with alpha-renaming and feature-multiset triage, clone agreement",
     },
+    "C17": {
+        "text": "Static exception-escape analysis from pendulum.parse, limited to source classes that can be decided "
+                "exactly: conditional nullability of regex groups (regex AST + dominating truthiness facts) at every "
+                "int/len/slice/+/method use in the three parsing functions; OverflowError sources fed by unbounded "
+                "digit groups must lie under a handler on every call chain from the entry, and the handler converts to "
+                "ParserError; typestate of the interval halves at the _Interval construction (cast() is not a proof); "
+                "exhaustive isinstance ladder; PyValueError-only error constructors in the Rust arm (MIR); strict gate "
+                "and handlers of the dateutil fall-back; every explicit raise in the parsing modules is a ValueError "
+                "subclass. Other implicit exception sources and value agreement of the back ends are not claimed.",
+        "note": NOTE + " The may-raise table for the builtins/stdlib calls involved is frozen in pvs/props/C17.py.",
+        "technique": "exception-escape analysis: regex-AST nullability + dominance facts, handler reachability, typestate",
+    },
 }
 
 NOT_APPLICABLE: dict[str, str] = {}
